@@ -175,6 +175,27 @@ func (x *Exec) loopHeader(fr *Frame, h *ssa.BasicBlock, ord int, pre *Node, st *
 		if m == allocVar {
 			continue
 		}
+		if fields, partial := fr.loopFieldMods[h][m]; partial {
+			if t, ok := x.vc.cellType[m]; ok {
+				if si := x.ss.structInfoOf(t); si != nil && x.varSort(m) == si.name {
+					before := x.get(cur, m).S
+					args := make([]string, len(si.fields))
+					for i, f := range si.fields {
+						args[i] = app(f.acc, before)
+					}
+					for _, fi := range fields {
+						if fi < len(si.fields) {
+							args[fi] = x.vc.freshConst(shortVar(m)+"_"+mangle(si.fields[fi].name)+"_h", si.fields[fi].sort)
+						}
+					}
+					c := x.vc.freshConst(shortVar(m)+"_h", si.name)
+					hd.assume(mkEq(c, app("mk_"+si.name, args...)))
+					x.set(cur, m, c)
+					x.assumeAllocated(hd, cur, Term{S: c, Sort: si.name, T: t})
+					continue
+				}
+			}
+		}
 		x.havocVar(cur, m)
 		if t, ok := x.vc.cellType[m]; ok {
 			x.assumeAllocated(hd, cur, Term{S: cur.vars[m].S, Sort: x.varSort(m), T: t})
